@@ -60,6 +60,7 @@ class Interp:
         self.cnt = 0
         self.glog = Obj("li", [])
         self.defined = set()
+        self.plain = set()      # variables whose static type is a declared list type (not the result of map/filter)
         self.n = 0
         self.em.code("cnt = 0")
         self.em.code("glog: [int...] = []")
@@ -157,6 +158,7 @@ class Interp:
             else:
                 obj = Obj(t, list(op["init"]))
             name = self.fresh(t, obj)
+            self.plain.add(name)
             if t in MAP_T:
                 if obj.data:
                     body = ", ".join("%s: %s" % (lit(kk), lit(vv)) for kk, vv in obj.data.items())
@@ -207,6 +209,8 @@ class Interp:
             return False
         if k == "alias":
             name = self.fresh(a.t, a)
+            if an in self.plain:
+                self.plain.add(name)
             em.code("%s = %s" % (name, an))
             return True
         if k == "clone":
@@ -343,6 +347,8 @@ class Interp:
         if k == "unary_read":
             # an element read used directly under a unary operator / as a condition
             i = op["i"]
+            if an not in self.plain:
+                return False      # (the compiler rejects `-ys[0]` when ys is the result of map: a typing quirk, not this property)
             if a.t in ("li", "lg"):
                 em.code("print -%s[%s]" % (an, idx(i)))
                 if i < 0 or i >= n:
